@@ -174,7 +174,7 @@ fn run_set<S: PS>(ctx: &Ctx) -> Acc {
             }
             coeff += stride;
         }
-        for (si, sp) in [SPat::AllMinus, SPat::AllPlus, SPat::Alternating, SPat::Zero, SPat::Random].into_iter().enumerate() {
+        for (si, sp) in [SPat::AllMinus, SPat::AllPlus, SPat::Alternating, SPat::Zero, SPat::Random, SPat::NttSparse].into_iter().enumerate() {
             for (ti, tp) in [T0Pat::AllTop, T0Pat::AllBottom, T0Pat::RandomExtremes, T0Pat::Random, T0Pat::Zero].into_iter().enumerate() {
                 if (poly + si + ti) % 3 == 0 || ctx.thorough() {
                     let sk = gen::hostile_sk(&mut g, p, sp, tp);
